@@ -1,5 +1,7 @@
 -- GENERATED from /repo sources by tools/extract.py on every check; do not edit
 namespace Elvis.Gen
+/-- reassembly/segment.rs `TLB` (timer lower bound, seconds) -/
+def TLB : Nat := 15
 def ipv4CurrentNetwork : Nat := 0
 def ipv4SubnetBroadcast : Nat := 4294967295
 def udpHeaderOctets : Nat := 8
